@@ -184,6 +184,63 @@ func C04(run *hx.Run) {
 					}
 				}
 			}
+			// the same probes again in other ORDERS on the same (warm) handles: what one lookup leaves behind in a
+			// cached page (a search hint, a memo) must not change the answer of the next one. Descending order makes
+			// every lookup follow its right neighbour (absent separator key, then a present row of the same leaf).
+			orders := map[string][]int64{}
+			desc := append([]int64{}, ids...)
+			sort.Slice(desc, func(a, b int) bool { return desc[a] > desc[b] })
+			orders["descending"] = desc
+			shuf := append([]int64{}, ids...)
+			rng.Shuffle(len(shuf), func(a, b int) { shuf[a], shuf[b] = shuf[b], shuf[a] })
+			orders["shuffled"] = shuf
+			// absent probe immediately followed by its present left neighbours
+			var pairs []int64
+			for _, id := range ids {
+				if _, has := byID[id]; !has {
+					for _, d := range []int64{1, 2, 3} {
+						if _, ok := byID[id-d]; ok && id-d < id {
+							pairs = append(pairs, id, id-d)
+						}
+					}
+				}
+			}
+			orders["absent-then-left-neighbour"] = pairs
+			for oname, seq := range orders {
+				for _, id := range seq {
+					want, has := byID[id]
+					var row sqlittle.Row
+					var err error
+					p, pm := safely(func() { row, err = db.SelectRowid(t.Name, id, cols...) })
+					run.Eval(1)
+					key := "C04/SelectRowid/order-" + oname
+					detail := hx.M{"profile": d.Profile, "db_seed": d.Seed, "table": t.Name, "rowid": fmt.Sprint(id), "order": oname}
+					switch {
+					case p:
+						run.Violation(key+"/panic", "panic: "+pm, detail)
+					case err != nil:
+						run.Violation(key+"/error", fmt.Sprintf("SelectRowid(%s, %d) error: %v", t.Name, id, err), detail)
+					case has != (row != nil):
+						run.Violation(key+"/presence", fmt.Sprintf("SelectRowid(%s, %d) in %s order on a warm handle: row present=%v, SQLite present=%v", t.Name, id, oname, row != nil, has), detail)
+					case has && !hx.RowEqualDoc(want, hx.Row(row)):
+						run.Violation(key+"/values", fmt.Sprintf("SelectRowid(%s, %d) in %s order = %s, SQLite %s", t.Name, id, oname, hx.RowString(row), hx.RowString(want)), detail)
+					}
+					if terr == nil {
+						var rec sdb.Record
+						p, pm := safely(func() { rec, err = tab.Rowid(id) })
+						run.Eval(1)
+						switch {
+						case p:
+							run.Violation("C04/Table.Rowid/order-"+oname+"/panic", "panic: "+pm, detail)
+						case err != nil:
+							run.Violation("C04/Table.Rowid/order-"+oname+"/error", fmt.Sprintf("Table.Rowid(%d) error: %v", id, err), detail)
+						case has != (rec != nil):
+							run.Violation("C04/Table.Rowid/order-"+oname+"/presence", fmt.Sprintf("Table(%s).Rowid(%d) in %s order: record present=%v, SQLite present=%v", t.Name, id, oname, rec != nil, has), detail)
+						}
+					}
+				}
+				run.See("probe_order", oname)
+			}
 			for k, n := range ps.kind {
 				run.Count("probes_"+k, n)
 			}
